@@ -2,9 +2,13 @@ package main
 
 import (
 	"bufio"
+	"context"
 	"crypto/sha1"
 	"encoding/base64"
 	"fmt"
+	"google.golang.org/grpc"
+	"google.golang.org/grpc/credentials/insecure"
+	"google.golang.org/grpc/metadata"
 	"io"
 	"net"
 	"net/netip"
@@ -285,6 +289,7 @@ func c12Enforce(c *ctx) {
 	}
 	wg.Wait()
 	c12NoSchemes(c, up)
+	c12GRPC(c)
 	c.R.SetCounter("tcp_upstream_connections", echoConns.Load())
 	c.R.SetCounter("tcp_admitted_connections", admittedTCP.Load())
 	// conservation: every upstream connection belongs to an admitted client connection
@@ -341,6 +346,72 @@ func c12NoSchemes(c *ctx, up *rawhttp.Upstream) {
 			case host == "free.test" && (resp.Status != 200 || !contacted):
 				c.R.Violate("c12e:admitted-request-refused", fmt.Sprintf("fabio without any auth scheme, route without auth: status %d", resp.Status), vin)
 			}
+		}
+	}
+}
+
+// c12GRPC: access rules and authentication on routes served by the gRPC listener: a call from a peer the rule refuses,
+// or to a route whose auth scheme is unknown, must fail and the backend must not be contacted; an admitted call is served.
+func c12GRPC(c *ctx) {
+	var scripts sync.Map
+	b, err := newC16Backend("acl", &scripts)
+	if err != nil {
+		c.R.Inconcl("grpc backend: %v", err)
+		return
+	}
+	defer b.srv.Stop()
+	addr := fmt.Sprintf("127.0.0.1:%d", freePort())
+	rg, err := newRig(c, "aclgrpc", []string{"-proxy.addr", addr + ";proto=grpc", "-log.level", "WARN"})
+	if err != nil {
+		c.R.Inconcl("cannot start the gRPC fabio: %v", err)
+		return
+	}
+	defer rg.close()
+	up := fmt.Sprintf("grpc://127.0.0.1:%d", b.port())
+	rg.setManual(strings.Join([]string{
+		fmt.Sprintf("route add open /pkg.Open %s opts \"proto=grpc\"", up),
+		fmt.Sprintf("route add allowed /pkg.Allowed %s opts \"proto=grpc allow=ip:127.0.0.0/8\"", up),
+		fmt.Sprintf("route add allowonly10 /pkg.Allow10 %s opts \"proto=grpc allow=ip:10.0.0.0/8\"", up),
+		fmt.Sprintf("route add denylo /pkg.DenyLo %s opts \"proto=grpc deny=ip:127.0.0.0/8\"", up),
+		fmt.Sprintf("route add authx /pkg.AuthX %s opts \"proto=grpc auth=nosuch\"", up),
+	}, "\n"))
+	if err := rg.barrier(); err != nil {
+		c.R.Inconcl("barrier: %v", err)
+		return
+	}
+	if !fabioproc.WaitListening(addr, 20*time.Second) {
+		c.R.Inconcl("grpc listener did not come up")
+		return
+	}
+	cc, err := grpc.NewClient(addr, grpc.WithTransportCredentials(insecure.NewCredentials()))
+	if err != nil {
+		c.R.Inconcl("grpc client: %v", err)
+		return
+	}
+	defer cc.Close()
+	for i, tc := range []struct {
+		method string
+		admit  bool
+		why    string
+	}{{"/pkg.Open/Do", true, "no rule"}, {"/pkg.Allowed/Do", true, "allow=ip:127.0.0.0/8, peer 127.0.0.1"}, {"/pkg.Allow10/Do", false, "allow=ip:10.0.0.0/8, peer 127.0.0.1"},
+		{"/pkg.DenyLo/Do", false, "deny=ip:127.0.0.0/8, peer 127.0.0.1"}, {"/pkg.AuthX/Do", false, "auth=nosuch (unknown scheme)"}, {"/pkg.Allow10/Do", false, "allow=ip:10.0.0.0/8, peer 127.0.0.1"}} {
+		id := fmt.Sprintf("aclg%d", i)
+		scripts.Store(id, &c16Script{Msgs: [][]byte{{}}})
+		before := b.calls.Load()
+		ctx, cancel := context.WithTimeout(metadata.AppendToOutgoingContext(context.Background(), "x-verif-id", id), 10*time.Second)
+		var reply []byte
+		req := []byte{}
+		err := cc.Invoke(ctx, tc.method, &req, &reply, grpc.ForceCodec(rawCodec{}))
+		cancel()
+		contacted := b.calls.Load() > before
+		c.R.Eval(1)
+		c.R.Nontrivial("grpc-acl|" + tc.method + "|" + tc.why)
+		in := map[string]any{"method": tc.method, "rule": tc.why}
+		switch {
+		case tc.admit && (err != nil || !contacted):
+			c.R.Violate("c12e:grpc-admitted-call-refused", fmt.Sprintf("gRPC call %s (%s) must be served: err %v, backend contacted %v", tc.method, tc.why, err, contacted), in)
+		case !tc.admit && (err == nil || contacted):
+			c.R.Violate("c12e:grpc-call-forwarded-despite-rule", fmt.Sprintf("gRPC call %s on a route with %s must be refused without contacting the backend: err %v, backend contacted %v", tc.method, tc.why, err, contacted), in)
 		}
 	}
 }
